@@ -194,14 +194,16 @@ type parser struct {
 	// out-parameter pre-state: every read goes into a destination that is either fresh (mode 0), pre-filled with
 	// all-ones / long garbage (mode 1) or the variable reused from the previous read of that type (mode 2, 3)
 	leaks []string // methods whose result was wrong only because of the destination's pre-state
-	reU8  uint8
-	reU16 uint16
-	reU32 uint32
-	reU64 uint64
-	reStr cryptobyte.String
-	reBuf []byte
-	reTag asn1.Tag
-	rePre bool
+	// methods that gave a different result when their out parameter aliased the receiver than into a separate variable
+	aliasWrong []string
+	reU8       uint8
+	reU16      uint16
+	reU32      uint32
+	reU64      uint64
+	reStr      cryptobyte.String
+	reBuf      []byte
+	reTag      asn1.Tag
+	rePre      bool
 }
 
 func pickDest[T any](mode int, reused *T, garbage T) *T {
@@ -309,8 +311,37 @@ func (ps *parser) readASN1(s *cryptobyte.String, tag asn1.Tag, size, style, mode
 	case 6:
 		cp := *s
 		ok = s.PeekASN1Tag(tag) && cp.SkipASN1(tag) && s.ReadASN1(c, tag) && len(cp) == len(*s)
+	// styles 7..11: the out parameter aliases the receiver (in-place descent idiom d.ReadASN1(&d, tag)); the
+	// remainder after the element is lost by construction of the idiom, so s itself advances with SkipASN1
+	case 7:
+		d := *s
+		ok = d.ReadASN1(&d, tag) && s.SkipASN1(tag)
+		*c = d
+	case 8:
+		d := *s
+		ok = d.ReadAnyASN1(&d, t) && *t == tag && s.SkipASN1(tag)
+		*c = d
+	case 9:
+		d := *s
+		ok = d.ReadASN1Element(&d, tag) && len(d) == size && d.ReadASN1(&d, tag) && s.SkipASN1(tag)
+		*c = d
+	case 10:
+		d := *s
+		ok = d.ReadOptionalASN1(&d, pres, tag) && *pres && s.SkipASN1(tag)
+		*c = d
+	case 11:
+		d := *s
+		ok = d.ReadASN1Bytes((*[]byte)(&d), tag) && s.SkipASN1(tag)
+		*c = d
 	}
 	return ok, *c
+}
+
+var asn1StyleNames = []string{"ReadASN1", "ReadAnyASN1", "ReadASN1Element", "ReadAnyASN1Element", "ReadOptionalASN1", "ReadASN1Bytes", "PeekASN1Tag+SkipASN1+ReadASN1",
+	"ReadASN1", "ReadAnyASN1", "ReadASN1Element", "ReadOptionalASN1", "ReadASN1Bytes"}
+
+func sameSlice(a, b []byte) bool {
+	return len(a) == len(b) && (len(a) == 0 || &a[0] == &b[0])
 }
 
 func (ps *parser) level(s *cryptobyte.String, items []item, path string) bool {
@@ -342,6 +373,15 @@ func (ps *parser) level(s *cryptobyte.String, items []item, path string) bool {
 				name = "CopyBytes"
 			}
 			ps.modes[name]++
+			if ps.r.IntN(4) == 0 {
+				// ReadBytes with the receiver itself as destination: d must hold the n bytes read
+				d := before
+				okA := d.ReadBytes((*[]byte)(&d), len(it.data))
+				ps.modes["readbytes-out-aliases-receiver"]++
+				if len(before) >= len(it.data) && !(len(it.data) == 0 && before == nil) && (!okA || !sameSlice(d, before[:len(it.data)])) {
+					ps.aliasWrong = append(ps.aliasWrong, "ReadBytes")
+				}
+			}
 			ok, got := ps.readBytes(s, len(it.data), mode, useCopy)
 			if (!ok || !bytes.Equal(got, it.data)) && mode != 0 {
 				retry := before
@@ -359,6 +399,25 @@ func (ps *parser) level(s *cryptobyte.String, items []item, path string) bool {
 				return false
 			}
 		case kLP:
+			if it.n <= 3 && ps.r.IntN(4) == 0 {
+				// out aliases the receiver: d.ReadUintNLengthPrefixed(&d) must leave the content in d
+				d := before
+				var okA bool
+				switch it.n {
+				case 1:
+					okA = d.ReadUint8LengthPrefixed(&d)
+				case 2:
+					okA = d.ReadUint16LengthPrefixed(&d)
+				case 3:
+					okA = d.ReadUint24LengthPrefixed(&d)
+				}
+				ref := before
+				ok0, c0 := ps.readLP(&ref, it.n, 0)
+				ps.modes["lp-out-aliases-receiver"]++
+				if ok0 && (!okA || !sameSlice(d, c0)) {
+					ps.aliasWrong = append(ps.aliasWrong, fmt.Sprintf("ReadUint%dLengthPrefixed", 8*it.n))
+				}
+			}
 			ok, c := ps.readLP(s, it.n, mode)
 			if (!ok || len(c) != it.size-it.n) && mode != 0 {
 				retry := before
@@ -376,7 +435,7 @@ func (ps *parser) level(s *cryptobyte.String, items []item, path string) bool {
 			}
 		case kASN1:
 			tag := asn1.Tag(it.tag)
-			style := ps.r.IntN(7)
+			style := ps.r.IntN(12)
 			ps.modes[fmt.Sprintf("asn1-mode-%d", style)]++
 			contentLen := 0
 			for _, k := range it.kids {
@@ -388,6 +447,15 @@ func (ps *parser) level(s *cryptobyte.String, items []item, path string) bool {
 				if ok0, c0 := ps.readASN1(&retry, tag, it.size, style, 0); ok0 && len(c0) == contentLen {
 					ps.leaks = append(ps.leaks, fmt.Sprintf("ASN.1-read-style-%d", style))
 					*s, ok, c = retry, ok0, c0
+				}
+			}
+			if style >= 7 {
+				// reference walker: the same element read into a separate variable
+				ref := before
+				ok0, c0 := ps.readASN1(&ref, tag, it.size, 0, 0)
+				if ok0 && len(c0) == contentLen && (!ok || !sameSlice(c, c0) || len(*s) != len(ref)) {
+					ps.aliasWrong = append(ps.aliasWrong, asn1StyleNames[style])
+					*s, ok, c = ref, ok0, c0
 				}
 			}
 			if !ok {
@@ -583,6 +651,9 @@ func judge(p *program, readSeed uint64) verdict {
 		}
 		if preEqual && !bytes.Equal(o.out, want) {
 			add("reader-modified-input", nil) // the output equalled the model before the mirrored reads ran
+		}
+		for _, l := range ps.aliasWrong {
+			add("out-aliases-receiver-wrong:"+l, map[string]any{"note": "d.Method(&d, ...) left something else in d than s.Method(&out, ...) leaves in out"})
 		}
 		for _, l := range ps.leaks {
 			add("out-param-prestate-leaks:"+l, map[string]any{"note": "the read returned the wrong result into a pre-filled or reused destination and the right one into a fresh zero variable"})
@@ -1016,6 +1087,11 @@ func TestC22(t *testing.T) {
 	m.Gate("unwrite_legal", 1000, "legal Unwrite")
 	m.Gate("read:dest-prestate-1", m.N(20000, 1000000), "mirrored reads into a destination pre-filled with all-ones / long garbage")
 	m.Gate("read:dest-prestate-2", m.N(40000, 2000000), "mirrored reads into a variable reused from the previous read of that type")
+	for st := 7; st <= 11; st++ {
+		m.Gate(fmt.Sprintf("read:asn1-mode-%d", st), m.N(1000, 50000), "ASN.1 elements descended into with the out parameter aliasing the receiver ("+asn1StyleNames[st]+")")
+	}
+	m.Gate("read:lp-out-aliases-receiver", m.N(1000, 50000), "length-prefixed reads with the out parameter aliasing the receiver")
+	m.Gate("read:readbytes-out-aliases-receiver", m.N(5000, 250000), "ReadBytes with the receiver as destination")
 	m.Gate("addbytes_args_checked", m.N(20000, 1000000), "AddBytes arguments verified unchanged (incl. spare capacity) and overwritten afterwards")
 	m.Gate("fixed_exact_capacity_ok", 500, "fixed builder with exactly the needed capacity")
 	m.Gate("fixed_alias_checked", 1000, "result aliases the given array")
